@@ -745,6 +745,12 @@ class JuliaP(Parser):
             body = self.program(until='end')
             self.expect('id', 'end')
             return ('assign', name, ('lambda', params, body))
+        if self.at('id', 'using') and self.peek(1)[0] == 'id':
+            self.next()
+            mods = [self.next()[1]]
+            while self.accept('op', ','):
+                mods.append(self.next()[1])
+            return ('using', mods)
         if self.at('id') and self.at_op('=', 1) and not self.at_op('=', 2):
             name = self.next()[1]
             self.next()
@@ -752,6 +758,9 @@ class JuliaP(Parser):
         return ('expr', self.expr())
 
     def postfix_extra(self, a):
+        if self.at_op('.') and a[0] == 'id' and self.peek(1)[0] == 'id':
+            self.next()                       # Module.name: a qualified name
+            return ('id', a[1] + '.' + self.next()[1])
         if self.at_op('{') and a[0] in ('id', 'tapp'):
             self.next()
             targs = []
@@ -767,6 +776,8 @@ class JuliaP(Parser):
 def julia_typename(e):
     if e[0] == 'id':
         return e[1]
+    if e[0] == 'num' and float(e[1]).is_integer():       # the N of Array{T,N}
+        return str(int(e[1]))
     if e[0] == 'tapp':
         return julia_typename(e[1]) + '{' + ','.join(julia_typename(x) for x in e[2]) + '}'
     raise IllFormed('type expected')
@@ -789,6 +800,13 @@ class JuliaI(Interp):
             if st[0] == 'assign':
                 v = self.ev(st[2], env)
                 self.assign(st[1], v, env)
+            elif st[0] == 'using':
+                # standard-library modules only (no package can be installed where the snippet is meant to run out of the box)
+                for m_ in st[1]:
+                    if m_ not in ('Mmap',):
+                        raise NotUnderstood(f'julia: using {m_}')
+                    self.modules = getattr(self, 'modules', set()) | {m_}
+                v = None
             else:
                 v = self.ev(st[1], env)
         return v
@@ -890,6 +908,27 @@ class JuliaI(Interp):
             vals = read_items(fh, np.dtype('<' + JULIA_T[t[1]]), n)
             if len(vals) != n:
                 raise IllFormed(f'EOFError: read {len(vals)} of {n} elements')
+            return colarr(vals, dims)
+        if name == 'Mmap.mmap':
+            # Mmap.mmap(io, Array{T,N}, dims): maps the file from the stream's position as an Array{T,N} of the given dims.
+            # The elements are taken as they are in the file, in the HOST's byte order - there is no conversion
+            if 'Mmap' not in getattr(self, 'modules', set()):
+                raise IllFormed('UndefVarError: Mmap (the module has not been loaded with `using Mmap`)')
+            if len(a) != 3:
+                raise IllFormed('Mmap.mmap(io, Array{T,N}, dims): wrong number of arguments')
+            fh, t, dims = a
+            if not isinstance(fh, FileH) or fh.closed:
+                raise IllFormed('Mmap.mmap: invalid stream')
+            m_ = re.match(r'^Array\{(.+?)(?:,\s*(\d+))?\}$', t[1]) if isinstance(t, tuple) and t[0] == 'sym' else None
+            if not m_ or m_.group(1) not in JULIA_T:
+                raise IllFormed(f'Mmap.mmap: invalid array type {t!r}')
+            dims = dims[1] if isinstance(dims, tuple) else [self.toint(dims)]
+            if m_.group(2) and int(m_.group(2)) != len(dims):
+                raise IllFormed(f'Mmap.mmap: Array{{T,{m_.group(2)}}} with {len(dims)} dimensions')
+            n = int(np.prod(dims))
+            vals = read_items(fh, np.dtype('<' + JULIA_T[m_.group(1)]), n)
+            if len(vals) != n:
+                raise IllFormed(f'ArgumentError: requested size is larger than the file ({len(vals)} of {n} elements)')
             return colarr(vals, dims)
         if name == 'read!':
             if self.version == 0:
